@@ -59,12 +59,13 @@ theorem C13_token_shapes (s : Str) (toks : List Token) (h : Impl.tokenize s = .o
     (∃ t, toks.getLast? = some t ∧ t.kind = .eof) ∧ ∀ t ∈ toks, Proofs.TokShape t :=
   Proofs.tokenize_shapes s toks h
 
-/-- Evaluation of a compiled query with the built-in registry completes (within the depth
-limit) — no exception at all: every query compile() returns is well-typed (`C05_partial`), and a
-well-typed query on a well-formed value evaluates to the RFC nodelist (`eval_correct`). -/
-theorem C13_eval_partial (s : Str) (q : Query) (v : Json)
+/-- Text level (C01/C02 composed with C05): whatever compile() returns for a query text evaluates, on any
+well-formed value within the depth limit, to the RFC 9535 nodelist of that compiled query (built-in
+registry): every accepted text is well-typed (`C05_partial`), and well-typed queries evaluate to the RFC
+nodelist (`eval_correct`). -/
+theorem compile_then_find (s : Str) (q : Query) (v : Json)
     (hc : Impl.compile builtinEnv s = .ok q) (hwf : v.WF) (hd : v.depth ≤ 100) :
-    ∃ ns, Impl.find builtinEnv q v = .ok ns := by
+    Impl.find builtinEnv q v = .ok (Spec.select builtinReg q v) := by
   have h := (C05_partial builtinEnv s q hc).1
   have hsig : sigsOfEnv builtinEnv = sigsOf builtinReg := by
     funext n
@@ -80,7 +81,15 @@ theorem C13_eval_partial (s : Str) (q : Query) (v : Json)
           have g3 : ¬ "value".toList = n := fun h => h3 h.symm
           simp only [List.find?, g1, g2, g3, h1, h2, h3, decide_false, if_false, Option.map]
   rw [hsig] at h
-  exact ⟨_, C02_builtin q v h hwf hd⟩
+  exact C02_builtin q v h hwf hd
+
+
+/-- Evaluation of a compiled query with the built-in registry completes (within the depth
+limit) — no exception at all: every query compile() returns is well-typed (`C05_partial`), and a
+well-typed query on a well-formed value evaluates to the RFC nodelist (`eval_correct`). -/
+theorem C13_eval_partial (s : Str) (q : Query) (v : Json)
+    (hc : Impl.compile builtinEnv s = .ok q) (hwf : v.WF) (hd : v.depth ≤ 100) :
+    ∃ ns, Impl.find builtinEnv q v = .ok ns := ⟨_, compile_then_find s q v hc hwf hd⟩
 
 /-- the string form of an error is a total function of the error (message, line, column) -/
 theorem C13_str_total (q : Str) (off : Nat) : ∃ p : Nat × Int, Impl.position q off = p := ⟨_, rfl⟩
